@@ -448,6 +448,7 @@ def run(ctx):
             from harness.props import c09cli
             return c09cli.run_cli(ctx, drv, pool, extra_messages=[])
         run_shapes(ctx, drv, treq)
+        run_structural(ctx, drv, treq)       # w6-f24
         run_bitmaps(ctx, drv, treq, pool)
         run_generated(ctx, drv, treq, pool)
         run_corpus(ctx, drv, pool)
@@ -523,6 +524,28 @@ def run_shapes(ctx, drv, treq):
         elif obs.get('decode') == 'ok':
             keep_for_cli(ctx, 'shapes:' + tag, b)
         check_one(ctx, ids, b, obs, model, tag=tag)
+
+
+# --- w6-f24 (begin): finding F24 -------------------------------------------------------------------
+def run_structural(ctx, drv, treq):
+    """compressed messages in which a delayed replication factor / a bitmap bit is missing or different in one subset
+    (harness/structcols.py, assembled bit-level): whatever decodes has to be shown by all four renderings, each
+    converting back to the flat JSON"""
+    from harness import structcols
+    rng = ctx.rng('structural')
+    cases = structcols.make_cases(rng, 120 if ctx.tier == 'quick' else 2500)
+    obss = [V.observe(c['bytes']) for c in cases]
+    # (not views_request: a refused message has no `compressed` / `n_subsets` in its observation)
+    models = drv.batch([treq] + [{'op': 'views', 'ids': c['ids'], 'compressed': True, 'n': c['n'], 'bits': C.data_bits(c['bytes'])}
+                                 for c in cases])[1:] if cases else []
+    for c, obs, model in zip(cases, obss, models):
+        tag = 'structural:%s:%s' % (c['column'], c['kind'])
+        ctx.case({'ids': c['ids'], 'n': c['n'], 'compressed': True, 'shape': tag, 'label': c['label'], 'position': c['position']},
+                 nontrivial=obs.get('decode') == 'ok', sample=False)
+        ctx.traces += 1
+        ctx.count('%s:%s' % (tag, 'decodes' if obs.get('decode') == 'ok' else 'refused'))
+        check_one(ctx, c['ids'], c['bytes'], obs, model, tag=tag)
+# --- w6-f24 (end) -----------------------------------------------------------------------------------
 
 
 def run_generated(ctx, drv, treq, pool):
@@ -714,7 +737,10 @@ def replay(ctx, path):
     else:
         raise core.MachineryError('replay without message bytes: re-run the check (corpus files are read from the repo)')
     obs = V.observe(b)
-    model = drv.batch([treq, views_request(rep['ids'], obs, b)])[1]
+    req = views_request(rep['ids'], obs, b)
+    if 'n_subsets' in rep:          # w6-f24: a REFUSED message has no `compressed` / `n_subsets` in its observation
+        req['compressed'], req['n'] = bool(rep.get('compressed')), rep['n_subsets']
+    model = drv.batch([treq, req])[1]
     bad = oracle(obs)
     why = correspondence(obs, model)
     print('replay: oracle %s; correspondence %s' % (bad or 'holds', why or 'agrees'))
